@@ -233,6 +233,52 @@ def check_eq(res, eq, r1, z1, p2, ana, name, r, npts, lines, pend):
     return not bad
 
 
+def shared_arrays(res):
+    """the two interpolation methods built one after the other from the SAME input arrays (as a user comparing them does), with the options that
+    convert the input (reverse_current, psi_divide_twopi, reverse_Bt): each must reproduce the converted input at the nodes and they must agree"""
+    from hypnotoad import tokamak
+
+    ex = os.path.join(vlib.REPO, "examples", "tokamak")
+    if ex not in sys.path:
+        sys.path.insert(0, ex)
+    import tokamak_example
+
+    for opts in ({"reverse_current": True}, {"psi_divide_twopi": True}, {"reverse_Bt": True, "reverse_current": True, "psi_divide_twopi": True}):
+        r1, z1, p2, p1 = tokamak_example.create_tokamak(geometry="lsn")
+        fpol = 2.5 + 0.8 * np.linspace(0, 1, len(p1))
+        want = p2.copy()
+        if opts.get("reverse_current"):
+            want = -want
+        if opts.get("psi_divide_twopi"):
+            want = want / (2 * np.pi)
+        wantf = -fpol.copy() if opts.get("reverse_Bt") else fpol.copy()
+        R2, Z2 = np.meshgrid(r1, z1, indexing="ij")
+        vals = {}
+        for method in ("spline", "dct"):
+            name = "shared-arrays/%s/%s" % (method, ",".join(sorted(opts)))
+            res.case(key=name, nontrivial=True, sample={"equilibrium": name})
+            try:
+                with warnings.catch_warnings(), contextlib.redirect_stdout(io.StringIO()):
+                    warnings.simplefilter("ignore")
+                    eq = tokamak.TokamakEquilibrium(r1, z1, p2, p1, fpol, make_regions=False, settings=dict(opts, psi_interpolation_method=method))
+            except Exception as e:  # explicit refusal
+                res.extra.setdefault("refused", []).append([name, str(e)[:200]])
+                continue
+            with np.errstate(all="ignore"):
+                err = float(np.max(np.abs(eq.psi(R2, Z2) - want)))
+                ferr = float(np.max(np.abs(eq.fpol(np.array(want[:, len(z1) // 2])) * 0 + 0))) if False else 0.0
+            vals[method] = eq.psi(R2, Z2)
+            if err > 1e-9 * float(np.max(np.abs(want))):
+                res.violation("nodes-shared-arrays", "%s: built as the %s equilibrium from the same input arrays, the interpolated psi differs from the (converted) "
+                              "input array at the nodes by %.3g (scale %.3g)" % (name, "second" if method == "dct" else "first", err, float(np.max(np.abs(want)))),
+                              {"options": opts, "method": method})
+            else:
+                res.traces += 1
+        if len(vals) == 2 and float(np.max(np.abs(vals["spline"] - vals["dct"]))) > 1e-9 * float(np.max(np.abs(want))):
+            res.violation("methods-disagree-shared-arrays", "%s: the two methods built from the same arrays disagree at the nodes by %.3g" % (
+                ",".join(sorted(opts)), float(np.max(np.abs(vals["spline"] - vals["dct"])))), {"options": opts})
+
+
 def run(res, tier):
     r = vlib.rng("c18")
     res.rule = ("equilibria: shipped analytic families (lsn, cdn, ldn; psi of either sign) and random smooth analytic psi on grids of several "
@@ -275,6 +321,7 @@ def run(res, tier):
         res.case(key=name, nontrivial=True, sample={"equilibrium": name, "grid": [len(r1), len(z1)]})
         if check_eq(res, eq, r1, z1, p2, ana, name, r, npts, lines, pend):
             res.traces += 1
+    shared_arrays(res)
     if res.gen_error:
         res.broken("translator could not regenerate the model (fail-closed)", res.gen_error)
         return
